@@ -38,6 +38,37 @@ impl Prop for C12 {
             },
         ));
         v.push(Scope::new(
+            "circle-defects",
+            "every catalogue circle with one of its cells blanked (three-quarter, half and quarter arcs), at the page origin and shifted",
+            |f| {
+                for art in shapes::catalog() {
+                    let g: Vec<Vec<char>> = art.split('\n').map(|l| l.chars().collect()).collect();
+                    for r in 0..g.len() {
+                        for c in 0..g[r].len() {
+                            if g[r][c] == ' ' {
+                                continue;
+                            }
+                            let mut h = g.clone();
+                            h[r][c] = ' ';
+                            let d = h.iter().map(|r| r.iter().collect::<String>()).collect::<Vec<_>>().join("\n");
+                            f(Case::s(enumr::shift(&d, 2, 1)));
+                            f(Case::s(d));
+                        }
+                    }
+                    // the four halves of the drawing
+                    let (w, hh) = enumr::extent(&art);
+                    let rows: Vec<Vec<char>> = art.split('\n').map(|l| { let mut v: Vec<char> = l.chars().collect(); while v.len() < w { v.push(' ') } v }).collect();
+                    let half = |keep: &dyn Fn(usize, usize) -> bool| -> String {
+                        rows.iter().enumerate().map(|(r, row)| row.iter().enumerate().map(|(c, ch)| if keep(c, r) { *ch } else { ' ' }).collect::<String>().trim_end().to_string()).collect::<Vec<_>>().join("\n")
+                    };
+                    f(Case::s(half(&|c, _r| c >= w / 2)));
+                    f(Case::s(half(&|c, _r| c < (w + 1) / 2)));
+                    f(Case::s(half(&|_c, r| r >= hh / 2)));
+                    f(Case::s(half(&|_c, r| r < (hh + 1) / 2)));
+                }
+            },
+        ));
+        v.push(Scope::new(
             "nbhd2",
             "every drawing character (ASCII + unicode tables) with one other at each neighbouring position, placed at the page origin",
             |f| {
